@@ -62,7 +62,8 @@ def main():
             os.remove(f"{wt}/tests/seeded_demo.rs")
         for c in checks:
             t0 = time.time()
-            rc, out = sh(["/verif/check", c], cwd="/verif", env={"PCKB_REPO": wt, "PCKB_TARGET_DIR": f"{tgt}/harness", "PCKB_OUT_DIR": f"{tgt}/evidence-out"})
+            V = os.environ.get("PCKB_VERIF_DIR", "/verif")
+            rc, out = sh([f"{V}/check", c], cwd=V, env={"PCKB_REPO": wt, "PCKB_TARGET_DIR": f"{tgt}/harness", "PCKB_OUT_DIR": f"{tgt}/evidence-out"})
             res["checks"][c] = rc
             if rc == 1 and a.collect:
                 import glob
